@@ -92,14 +92,23 @@ func waitPort(port int) bool {
 	return false
 }
 
+// relayRealClock: run the next instances on the real clock (mode expiry) instead of the virtual one
+var relayRealClock = false
+
 func newRelayInst(allowNoBid bool, buffer int64) *relayInst {
 	r := &relayInst{closed: make(chan struct{}), denyCh: make(chan string, 64), done: make(chan string, 1024)}
 	var now int64 = 1000000
 	var mu sync.Mutex
 	r.now, r.nowMu = &now, &mu
 	clock := func() int64 { mu.Lock(); defer mu.Unlock(); return now }
-	jwt.TimeFunc = func() time.Time { return time.Unix(clock(), 0) }
-	verifhook.SetNow(func() (int64, bool) { return clock(), true })
+	if relayRealClock {
+		clock = func() int64 { return time.Now().Unix() }
+		jwt.TimeFunc = time.Now
+		verifhook.SetNow(nil)
+	} else {
+		jwt.TimeFunc = func() time.Time { return time.Unix(clock(), 0) }
+		verifhook.SetNow(func() (int64, bool) { return clock(), true })
+	}
 	r.cs = ttlcode.NewDefaultCodeStore()
 	r.ds = deny.New()
 	r.ds.SetNowFunc(clock)
